@@ -36,7 +36,8 @@ Inductive error : Type :=
 | ETextRelativePointerButTextBaseIsUndefined
 | EDataRelativePointerButDataBaseIsUndefined
 | EFuncRelativePointerInBadContext | ECannotParseOmitPointerEncoding
-| EInvalidNameAttributeIndex
+| EInvalidNameAttributeIndex | EInvalidMacinfoType | EInvalidMacroType
+| EUnsupportedOpcodeOperandsTable | EMissingSplitUnit | EIo
 (* write::Error *)
 | WOffsetOutOfBounds | WLengthOutOfBounds | WInvalidAttributeValue
 | WValueTooLarge | WUnsupportedWordSize | WUnsupportedVersion
